@@ -123,7 +123,7 @@ RULE = ("per element configuration (the 10 elements with several constructor set
         "output.duplicate_last_bin/to_csv/write/filename/dirname/fileext/filetype/template/changed) are drawn from "
         "fixed palettes with ctx.rng; flows without any selected value (the empty flow included) over not yet "
         "existing output directories are part of every size sweep; (1) every palette value once with a value of the "
-        "other kind, both orders; (2) for drawn (A, B) with |A|,|B| <= 3 (1 draw per size pair in quick, 14 in "
+        "other kind, both orders; (2) for drawn (A, B) with |A|,|B| <= 3 (1 draw per size pair in quick, 10 in "
         "thorough) ALL interleaving patterns are enumerated (exhaustive up to 3+3); (3) thorough adds random "
         "patterns with |A|,|B| <= 6.  Quick keeps a cross of the 54 RunIf selector x inner-sequence settings. "
         "Non-trivial: at least one value of A and one of B in the flow.")
@@ -1257,18 +1257,18 @@ def compare(case, res, replies):
                or _cmp_run("second flow, A alone", res["a2"], m["a2"], is_pdf, pipe))
         if msg:
             return msg
-        if m["pred2"] != m["run2"]["blocks"]:
-            return f"model: mergeBlocks {m['pred2']} differs from the blocks of the second run {m['run2']['blocks']}"
+        if not m["pred2_ok"]:
+            return f"model: mergeBlocks differs from the blocks of the second run {m['run2']['blocks']}"
     if not is_pdf and m.get("ispattern") is False:
         return "model: IsPattern is false for the pattern of the case"
     if not is_pdf:
-        if m["pred"] != m["run"]["blocks"]:
-            return f"model: mergeBlocks {m['pred']} differs from the blocks of the interleaved run {m['run']['blocks']}"
-        if m["pickA"] != m["a"]["blocks"]:
-            return f"model: pick true {m['pickA']} differs from the blocks of the run on A {m['a']['blocks']}"
+        if not m["pred_ok"]:
+            return f"model: mergeBlocks differs from the blocks of the interleaved run {m['run']['blocks']}"
+        if not m["pickA_ok"]:
+            return f"model: pick true differs from the blocks of the run on A {m['a']['blocks']}"
         # at the positions of B stand the B values themselves, as far as the run got
         b_idx = [i for i, pp in enumerate(case["pat"]) if not pp]
-        got = [[x["t"] for x in blk] for blk in m["pickB"]]
+        got = m["pickB"]
         if got != [[2 * i] for i in b_idx[:len(got)]]:
             return f"model: pick false {got} is not a prefix of the B values {[2 * i for i in b_idx]}"
         if m["run"]["err"] is None and len(got) != len(b_idx):
@@ -1321,7 +1321,7 @@ def oracle(case, res):
         # the full-detail encodings are needed by the oracle only: drop them before the result travels to the main
         # process (memory: ~100 k cases in the thorough tier)
         for run in ("full", "a", "full2", "a2"):
-            for k in ("deep_blocks", "deep_tail", "produced", "fs0"):
+            for k in ("deep_blocks", "deep_tail", "produced", "fs0", "b"):
                 if run in res:
                     res[run].pop(k, None)
 
@@ -2049,7 +2049,7 @@ def gen_cases(ctx):
     """a generator (lazily enumerable: a changed tree makes a quick run take a sample of the thorough cases)"""
     rng = ctx.rng
     quick = ctx.tier == "quick"
-    draws = 1 if quick else 14
+    draws = 1 if quick else 10
     sizes = [(a, b) for a in range(4) for b in range(4)]
     configs = _configs(ctx.tier)
     ctx.exhaustive = False
@@ -2124,7 +2124,7 @@ def gen_cases(ctx):
                 yield dict(_mk_case(el, fs, [], B1, [False] * len(B1), rng), second={"A": A2, "B": B2, "pat": pat2})
         # 3. longer flows, random interleavings
         if not quick and not real:
-            for _ in range(30):
+            for _ in range(20):
                 ids = _Ids()
                 na, nb = rng.randint(1, 6), rng.randint(1, 6)
                 A = _draw(rng, mk_a(ids, rng), na)
